@@ -537,7 +537,7 @@ func TestCx13Upstreams(t *testing.T) {
 	} else {
 		all := hx.LoadCases[scase](t, "FcgiUpstreams")
 		rnd := hx.Rand()
-		nseq, nconc := 70, 30
+		nseq, nconc := 60, 24
 		if hx.Thorough() {
 			nseq, nconc = 380, 160
 		}
